@@ -60,6 +60,16 @@ def run(ctx):
             for m in (0, 1, 2, 3):
                 yield ("c08", {"f": fr.hex(), "mode": m, "pbf": rng.choice((0, 1)), "validate": rng.choice((0, 1)), "name": l["name"]})
             yield ("c08", {"f": (fr[:-1] + bytes((fr[-1] ^ 0xFF,))).hex(), "mode": l["m"], "pbf": 1, "validate": 0, "name": l["name"]})
+        # messages whose str() decodes a referenced class/ID: ACK-ACK, ACK-NAK, CFG-MSG (poll, set3, set8) x class x id
+        classes = sorted({c["key"][0] for c in ctx.defs["classes"]})
+        pairs = [(c, i) for c in classes for i in range(256)] if not ctx.thorough else [(c, i) for c in range(256) for i in range(256)]
+        if not ctx.thorough:
+            pairs += [(rng.randrange(256), rng.randrange(256)) for _ in range(2000)]
+        for c, i in pairs:
+            for (fc, fi, m, tail) in ((5, 1, 0, b""), (5, 0, 0, b""), (6, 1, 2, b""), (6, 1, 1, b"\x01"), (6, 1, 0, bytes(6))):
+                if not ctx.thorough and (fc, fi, m) != (5, 1, 0) and (c * 7 + i) % 3:
+                    continue
+                yield ("c08", {"f": frame(fc, fi, bytes((c, i)) + tail).hex(), "mode": m, "pbf": 1, "validate": 1, "name": "ACK/CFG-MSG"})
         # arbitrary byte strings, including frame-shaped garbage with VALNONE
         for _ in range(4000 if not ctx.thorough else 60000):
             n = rng.randrange(0, 48)
